@@ -30,7 +30,7 @@ pub struct C18;
 /// exercise every piece of mutable state; the rest are pairs that a lossy
 /// process-wide cache key would confuse (flags that look like a pattern prefix,
 /// same pattern under different flags, same text under the other dialect).
-const POOL: [(&str, &str, [&str; 2], &str); 11] = [
+const POOL: [(&str, &str, [&str; 2], &str); 13] = [
     ("(a)(b)?", "", ["aab", "xab -- 0123456789 0123456789 0123456789 0123456789 0123456789 -- a -- ab ...."], "<$1|$2>"),
     ("(?:a?|b)*c", "", ["cabc", "aab 0123456789 0123456789 0123456789 0123456789 0123456789 xx abc xx c tail.."], "<$0>"),
     ("(a)\\1|b", "i", ["aAb", "ab 0123456789 0123456789 0123456789 0123456789 0123456789 xx aA xx Aa tail.."], "<$1>"),
@@ -42,6 +42,11 @@ const POOL: [(&str, &str, [&str; 2], &str); 11] = [
     ("a.c", "", ["a\nc", "abc 0123456789 0123456789 0123456789 0123456789 0123456789 a\nc -- a-c tail"], "<$0>"),
     ("^a|b", "", ["a\nab", "aab 0123456789 0123456789 0123456789 0123456789\na 0123456789 xx\nb tail"], "<$0>"),
     ("^a|b", ";xsd", ["a\nab", "^ab 0123456789 0123456789 0123456789 0123456789 0123456789 ^a -- b tail.."], "<$0>"),
+    // matches the empty string, but no substring of the first input: the error of the scan
+    // APIs must not depend on an earlier is_match
+    ("^a*$", "", ["b", "ab 0123456789 0123456789 0123456789 0123456789 0123456789 xx aa xx a tail.."], "<$0>"),
+    // an invalid replacement string: the same error on every call
+    ("b", "", ["abc", "xab 0123456789 0123456789 0123456789 0123456789 0123456789 -- b -- ab ...."], "x$y"),
 ];
 
 fn pool_flags(p: usize) -> (&'static str, bool) {
@@ -385,8 +390,13 @@ fn prefixes() -> Vec<Vec<Step>> {
     }
     for p in 0..POOL.len() {
         for i in 0..2 {
-            out.push(vec![Step::Compile(p), Step::OpenTok(0, i), Step::StepIt(0)]);
-            out.push(vec![Step::Compile(p), Step::OpenAn(0, i), Step::StepIt(0)]);
+            for open in [Step::OpenTok(0, i), Step::OpenAn(0, i)] {
+                // (a regex that matches the empty string yields an error instead of an iterator)
+                let (w, _) = build(&[Step::Compile(p), open]);
+                if w.iters.first().map(|x| x.is_some()).unwrap_or(false) {
+                    out.push(vec![Step::Compile(p), open, Step::StepIt(0)]);
+                }
+            }
         }
     }
     out
